@@ -496,6 +496,33 @@ def main():
             else:
                 undecided.append(f"{oid}: {detail}")
             continue
+        if co.get("kind") == "fn_must_not_contain":
+            # a function body must not contain a given token sequence (e.g. `spawn (`): mechanical, for facts the extraction
+            # rules would hide (R6 runs a spawned task at its spawn point, so a contract cannot tell a detached write from one in place)
+            from lex import lex as _lex, locate as _locate
+            st, detail = "ok", ""
+            try:
+                toks = _lex(open(os.path.join(REPO, co["file"])).read())
+                loc = _locate(toks, co["fn"])
+                if loc is None:
+                    st, detail = "undecided", f"function {co['fn']} not found in {co['file']}"
+                else:
+                    want = co["tokens"]
+                    body = [t.text for t in toks[loc[1]:loc[2]]]
+                    hit = any(body[k:k + len(want)] == want for k in range(len(body)))
+                    if hit:
+                        st, detail = "violation", f"{co['fn']} contains `{' '.join(want)}`"
+            except Exception as e:   # noqa
+                st, detail = "undecided", str(e)
+            rec = {"id": oid, "kind": "config", "source": co["file"], "backend": "token scan of one function body", "status": {"ok": "discharged", "violation": "FAILED", "undecided": "undecided"}[st], "detail": detail, "solver_ms": 0, "rlimit": None}
+            fn_records.append(rec)
+            if st == "ok":
+                discharged.append(oid)
+            elif st == "violation":
+                violations.append((oid, [{"msg": "configuration obligation not met: " + co["why"] + " — " + detail, "at": co["file"], "clause": co["why"], "line": None, "src_line": None, "rendered": detail}], None))
+            else:
+                undecided.append(f"{oid}: {detail}")
+            continue
         if co.get("kind") == "serde_attrs":
             # wire types are assumed to round-trip as plain derives: a skipped field without a default cannot decode back
             # (definite); any other serde attribute only means the assumption is no longer covered (undecided)
